@@ -21,7 +21,7 @@ ASSUMPTIONS = ['an exclusion applies to registrations made after it was declared
 NAMES = ['X', 'Y', 'DEM_GOOD', 'T', 'DIV', 'SUP_LAB', 'A', 'B', 'INTDEP']
 SPELL = ['{b}', '+{b}', '-{b}', '(-{b})', '-({b})', '({b})', ' {b} ', '- {b}', '-(-{b})']
 EQNS = [None, None, '', 'A*B', '0.5*Y', 'CA_GOV__T', 'X + 1', '0.0']
-PREDEF = ['', '0.0', 'A+B', '2*Y', 'LAG_F*0.1']
+PREDEF = ['', '0.0', 'A+B', '2*Y', 'LAG_F*0.1', '0.05*LAG_F', '0.0125', '0.025*Y+A', '0.00', ' 0.0 ']
 BAD = ['A+B', '2*A*B', 'A-B', '(A', 'A*B*C', 'max(A,B)']
 
 
